@@ -12,7 +12,7 @@ WORK = run.WORK
 LIFE = {
     "C01": dict(models=["base_foreign", "restart"], tmodels=["t_restart3", "overlap"], fams=["other", "base", "amtless", "twohash"],
                 crashes=(0, 1), wf=0, rf=0, extra=["class", "twin_key"]),
-    "C02": dict(extra=["wait_timeout", "slow_decision", "write_fault", "late_replay"], focus=["Overlap", "Live"], models=["restart", "faults"], tmodels=["t_restart3", "t_faults2", "overlap"], fams=["base", "overlap", "amtless", "replay"],
+    "C02": dict(extra=["wait_timeout", "slow_decision", "write_fault", "late_replay", "k1_then_fail"], focus=["Overlap", "Live"], models=["restart", "faults"], tmodels=["t_restart3", "t_faults2", "overlap"], fams=["base", "overlap", "amtless", "replay"],
                 crashes=(0, 1, 1), wf=1, rf=0, trf=1),
     "C03": dict(models=["base_conf", "base_amtless", "base_zero", "restart"], tmodels=["t_restart3", "base_tot"], fams=["base", "amtless", "overlap", "other"],
                 crashes=(0, 1), wf=0, rf=0, extra=["class"]),
@@ -250,6 +250,10 @@ def build_jobs(pid, tier, seed, workdir):
         dj = scen.twin_key_jobs(start_run=runno)
         jobs += dj; runno += len(dj)
         sched_stats["directed twin-key schedules"] = len(dj)
+    if "k1_then_fail" in ex and thorough:
+        dj = scen.k1_then_fail_jobs(start_run=runno)
+        jobs += dj; runno += len(dj)
+        sched_stats["directed failed-wait-then-fail-request schedules"] = len(dj)
     if "late_replay" in ex:
         dj = scen.late_replay_jobs(start_run=runno)
         jobs += dj; runno += len(dj)
